@@ -35,6 +35,15 @@ discard, the in-place operators ...) - often as the *first* mutation since load;
 many-to-one product {loaded, unloaded, expired} x {FK column attribute written directly or
 not} x {target in the identity map or not} x {del, set, None}.
 
+Two more enumerated input classes with their own small oracles: (a) a back-reference mutation
+queued against an UNLOADED collection, then rollback / expire_all / expire of the objects
+before any flush, then load: collection == database, no added / deleted history, parent not
+dirty, flush emits no DML; (b) a one-way one-to-many WITHOUT back-reference (rig mapping
+``zoo_pc_nobackref``): members moved between two loaded collections, append-then-remove and
+remove-then-append, five remove flavours, single move and symmetric swap, plain and
+delete-orphan cascade: in-memory collections, histories, flushed ``p_id`` rows and the reload
+must all agree.
+
 Final flush: must not raise; afterwards no attribute reports added / deleted; the rows
 equal the current values (read through the raw DBAPI handle that owns the transaction);
 each UPDATE of ``p`` / ``c`` sets exactly the columns with a net change (a value set back
@@ -67,7 +76,7 @@ META = {
     "require": ["history_checks", "scalar_changed_checks", "set_back_checks", "unknown_old_checks", "m2o_checks",
                 "collection_changed_checks", "pending_collection_checks", "flushes", "post_flush_history_checks",
                 "row_checks", "update_column_checks", "mutator_ops", "mutator_as_first_mutation", "fk_written_directly",
-                "del_parent_unloaded_checks", "m2o_product_cases"],
+                "del_parent_unloaded_checks", "m2o_product_cases", "queued_then_expired_cases", "moves_without_backref"],
     "assumptions": ["the reference model (about 150 lines) encodes the History documentation correctly"],
 }
 
@@ -882,6 +891,178 @@ def gen_and_run(ctx, rig, subject, ckind, ah, length):
     return m
 
 
+# --------------------------------------------------------------------------
+# input class: back-reference mutations queued against an UNLOADED collection, then a full
+# expire (rollback / expire_all) before any flush, then load + history + flush
+# --------------------------------------------------------------------------
+def queued_then_expired(ctx, rig, ckind, ah, action, preload, how):
+    from sqlalchemy import inspect
+
+    rig.wipe()
+    seed(rig)
+    P, C = rig.cls["P"], rig.cls["C"]
+    s = rig.session(autoflush=False)
+    desc = {"part": "queued-then-expired", "collection": ckind, "active_history": ah, "action": action,
+            "child_parent_loaded": preload, "expire": how}
+    try:
+        p1, p2 = s.get(P, 1), s.get(P, 2)
+        cs = {i: s.get(C, i) for i in (1, 2, 3, 4)}
+        child = {"move_away": cs[1], "to_none": cs[2], "move_in": cs[3], "orphan_in": cs[4]}.get(action)
+        if action == "new_in":
+            child = C()
+            child.k, child.v = "k-new", "v-new"
+        if preload and action != "new_in":
+            child.parent
+        # the mutation on the scalar side; p1.children is not loaded, so the library can only queue
+        child.parent = {"move_away": p2, "to_none": None}.get(action, p1)
+        if "children" in p1.__dict__:
+            return                      # (the library loaded it: nothing was queued, not this input class)
+        before_c = rig.truth("SELECT id, p_id FROM c ORDER BY id")
+        if how == "rollback":
+            s.rollback()
+        elif how == "expire_all":
+            s.expire_all()
+        else:
+            s.expire(p1)
+            if action != "new_in":
+                s.expire(child)
+            s.expire(p2)
+        if action == "new_in" and child in s:
+            s.expunge(child)            # expire_all does not evict a pending object; the change is dropped by hand
+        ctx.count("queued_then_expired_cases")
+        mark = rig.spy.mark()
+        members = sorted(x.id for x in Model.coll_values(p1) if "children" in p1.__dict__) if False else None
+        loaded = list(p1.children.values()) if isinstance(p1.children, dict) else list(p1.children)
+        got = sorted(x.__dict__.get("id") or inspect(x).identity[0] for x in loaded if inspect(x).key)
+        want = sorted(r[0] for r in rig.truth("SELECT id FROM c WHERE p_id = 1"))
+        h = inspect(p1).attrs.children.history
+        viol = None
+        if got != want or any(not inspect(x).key for x in loaded):
+            viol = ("collection-differs-from-database-after-expire", f"p1.children ids {got} (+{sum(1 for x in loaded if not inspect(x).key)} unsaved), database {want}")
+        elif list(h.added) or list(h.deleted):
+            viol = ("phantom-history-after-expire", f"history {tuple(map(list, h))}")
+        elif p1 in s.dirty:
+            viol = ("parent-dirty-after-expire", "p1 in session.dirty though nothing changed since the expire")
+        else:
+            s.flush()
+            dml = [e.sql for e in rig.nstatements(mark) if not str(e.sql).lstrip().upper().startswith(("SELECT", "SAVEPOINT", "RELEASE"))]
+            after_c = rig.truth("SELECT id, p_id FROM c ORDER BY id")
+            if dml or after_c != before_c:
+                viol = ("phantom-change-flushed-after-expire", f"flush emitted {dml[:2]}; c rows {before_c} -> {after_c}")
+        if viol:
+            ctx.violation("queued-backref-mutation-survives-expire:" + viol[0], f"{action}/{how}: {viol[1]}", desc)
+        ctx.case(desc, nontrivial=True)
+    finally:
+        s.close()
+        rig.sessions.remove(s)
+
+
+# --------------------------------------------------------------------------
+# input class: members moved between two loaded collections of a one-way one-to-many (no
+# back-reference), in both operation orders; judged on histories, flushed rows and reload
+# --------------------------------------------------------------------------
+def move_without_backref(ctx, rig, ckind, cascade, order, flavour, swap):
+    from sqlalchemy import inspect
+
+    rig.wipe()
+    seed(rig)
+    P, C = rig.cls["P"], rig.cls["C"]
+    s = rig.session()
+    desc = {"part": "move-without-backref", "collection": ckind, "cascade": cascade, "order": order,
+            "remove_flavour": flavour, "swap": swap}
+
+    def vals(p):
+        return list(p.children.values()) if isinstance(p.children, dict) else list(p.children)
+
+    def add(p, c):
+        if ckind == "list":
+            p.children.append(c)
+        elif ckind == "set":
+            p.children.add(c)
+        else:
+            p.children[c.k] = c
+
+    def rem(p, c):
+        coll = p.children
+        if ckind == "list":
+            if flavour == "remove":
+                coll.remove(c)
+            elif flavour == "pop":
+                coll.pop(coll.index(c))
+            elif flavour == "del":
+                del coll[coll.index(c)]
+            elif flavour == "slice":
+                i = coll.index(c)
+                del coll[i:i + 1]
+            else:
+                p.children = [x for x in coll if x is not c]
+        elif ckind == "set":
+            if flavour == "remove":
+                coll.remove(c)
+            elif flavour == "pop" or flavour == "del":
+                coll.discard(c)
+            elif flavour == "slice":
+                coll.difference_update([c])
+            else:
+                p.children = {x for x in coll if x is not c}
+        else:
+            if flavour == "remove" or flavour == "del":
+                del coll[c.k]
+            elif flavour == "pop" or flavour == "slice":
+                coll.pop(c.k)
+            else:
+                p.children = {k: x for k, x in coll.items() if x is not c}
+
+    try:
+        p1, p2 = s.get(P, 1), s.get(P, 2)
+        vals(p1), vals(p2)                               # both collections loaded
+        c1 = next(x for x in vals(p1) if x.id == 1)
+        c3 = next(x for x in vals(p2) if x.id == 3)
+        moves = [(c1, p1, p2)] + ([(c3, p2, p1)] if swap else [])
+        if order == "append-then-remove":
+            for c, old, new in moves:
+                add(new, c)
+            for c, old, new in moves:
+                rem(old, c)
+        else:
+            for c, old, new in moves:
+                rem(old, c)
+            for c, old, new in moves:
+                add(new, c)
+        ctx.count("moves_without_backref")
+        exp_mem = {1: {2} | ({3} if swap else set()), 2: ({1} if True else set()) | (set() if swap else {3})}
+        mem = {1: {x.id for x in vals(p1)}, 2: {x.id for x in vals(p2)}}
+        viol = None
+        if mem != exp_mem:
+            viol = ("collections-in-memory-wrong", f"{mem} expected {exp_mem}")
+        else:
+            for p, pid in ((p1, 1), (p2, 2)):
+                h = inspect(p).attrs.children.history
+                ea = sorted(c.id for c, old, new in moves if new is p)
+                ed = sorted(c.id for c, old, new in moves if old is p)
+                if sorted(x.id for x in h.added) != ea or sorted(x.id for x in h.deleted) != ed:
+                    viol = ("history-wrong", f"p{pid}.children history {[[x.id for x in part] for part in h]} expected added {ea} deleted {ed}")
+                    break
+        if viol is None:
+            s.flush()
+            rows = dict(rig.truth("SELECT id, p_id FROM c WHERE id IN (1, 2, 3)"))
+            want = {1: 2, 2: 1, 3: 1 if swap else 2}
+            if rows != want:
+                viol = ("flushed-rows-differ-from-collections", f"c.p_id rows {rows} expected {want}")
+            else:
+                s.commit()
+                s.expire_all()
+                mem2 = {1: {x.id for x in vals(p1)}, 2: {x.id for x in vals(p2)}}
+                if mem2 != exp_mem:
+                    viol = ("reload-differs-from-memory", f"reloaded {mem2}, in memory before {exp_mem}")
+        if viol:
+            ctx.violation("move-between-collections-without-backref:" + viol[0], f"{order}/{flavour}/swap={swap}: {viol[1]}", desc)
+        ctx.case(desc, nontrivial=True)
+    finally:
+        s.close()
+        rig.sessions.remove(s)
+
+
 SET_RE = re.compile(r"UPDATE (\w+) SET (.*?) WHERE", re.S)
 
 
@@ -995,9 +1176,27 @@ def run(ctx):
     sampled = 0
     prod_idx = [0]
     for ckind in ("list", "set", "dict"):
+        for cascade in ("save-update, merge", "all, delete-orphan"):
+            rig = R.Rig(ctx, [lambda sa, orm, reg, ck=ckind, ca=cascade: R.zoo_pc_nobackref(sa, orm, reg, collection=ck, cascade=ca)])
+            try:
+                for order in ("append-then-remove", "remove-then-append"):
+                    for flavour in ("remove", "pop", "del", "slice", "assign"):
+                        for swap in (False, True):
+                            prod_idx[0] += 1
+                            if ctx.mine(prod_idx[0]) and ctx.budget_ok():
+                                move_without_backref(ctx, rig, ckind, cascade, order, flavour, swap)
+            finally:
+                rig.close()
+    for ckind in ("list", "set", "dict"):
         for ah in (False, True):
             rig = R.Rig(ctx, [lambda sa, orm, reg, ck=ckind, ah=ah: R.zoo_pc(sa, orm, reg, collection=ck, active_history=ah)])
             try:
+                for action in ("move_away", "to_none", "move_in", "orphan_in", "new_in"):
+                    for preload in (True, False):
+                        for how in ("rollback", "expire_all", "expire_each"):
+                            prod_idx[0] += 1
+                            if ctx.mine(prod_idx[0]) and ctx.budget_ok():
+                                queued_then_expired(ctx, rig, ckind, ah, action, preload, how)
                 # many-to-one product: {parent loaded, unloaded, expired} x child (target in the
                 # identity map: c1, c3; no target: c4; target never loaded: c5) x FK column
                 # attribute {untouched, written to 1 / 2 / 3 (not in the identity map) / None}
